@@ -31,6 +31,8 @@ from datetime import UTC, datetime, timedelta
 from harness import lib
 
 lib.ensure_repo_on_path()
+import logging as _logging
+_logging.disable(_logging.CRITICAL)
 
 _real_connect = sqlite3.connect
 
@@ -105,6 +107,7 @@ class Env:
         self.task_ids: dict[str, tuple] = {}  # task id -> (ref, idx)
         self.max_wait_retries = max_wait_retries
         self.bus_log: list = []
+        self.delayed: dict[int, bool] = {}   # row id -> was pushed with a delay (recorded at first sight)
         self._hc = None
         install_connect_wrapper()
         self._open(first=True)
@@ -170,7 +173,7 @@ class Env:
         self.processor = QueueProcessor(self.queue, config=cfg, store=self.store, task_registry=self.registry,
                                         handler_config=hc)
         self._wrap_handlers()
-        self.hconn = _real_connect(self.db, timeout=30, isolation_level=None)  # harness-owned, autocommit
+        self.hconn = _real_connect(self.db, timeout=30, isolation_level=None, check_same_thread=False)  # harness-owned, autocommit
         self.hconn.row_factory = sqlite3.Row
         if first:
             self._install_triggers()
@@ -233,7 +236,7 @@ class Env:
                     canceled = None
                 env.ledger.append({"ref": ref, "task": idx, "n": n, "step": step,
                                    "ctx": {k: v for k, v in ctx.items() if not k.startswith("_") or k in ("_signal_name", "_jump_count")},
-                                   "canceled": canceled, "commit_no": env.total_commits(),
+                                   "canceled": canceled, "commit_no": env.total_commits(), "audit_seq": env.audit_max(),
                                    "stage_status": stage.status.name})
                 kind, _, arg = step.partition(":")
                 kv = parse_kv(arg) if kind not in ("jump",) else {}
@@ -316,7 +319,9 @@ class Env:
                   "ent TEXT, old TEXT, new TEXT, extra TEXT)")
         c.execute("CREATE TRIGGER IF NOT EXISTS verif_st AFTER UPDATE OF status ON stage_executions "
                   "WHEN OLD.status IS NOT NEW.status BEGIN INSERT INTO verif_audit(kind, ent, old, new, extra) "
-                  "VALUES ('stage', NEW.id, OLD.status, NEW.status, json_extract(NEW.context, '$._jump_count')); END")
+                  "VALUES ('stage', NEW.id, OLD.status, NEW.status, json_object('jc', json_extract(NEW.context, '$._jump_count'), "
+                  "'old_bypass', json_extract(OLD.context, '$._jump_bypass'), 'old_fired', json_extract(OLD.context, '$._join_fired'), "
+                  "'old_activated', json_extract(OLD.context, '$._activated_branches'))); END")
         c.execute("CREATE TRIGGER IF NOT EXISTS verif_tk AFTER UPDATE OF status ON task_executions "
                   "WHEN OLD.status IS NOT NEW.status BEGIN INSERT INTO verif_audit(kind, ent, old, new) "
                   "VALUES ('task', NEW.id, OLD.status, NEW.status); END")
@@ -343,7 +348,14 @@ class Env:
         for r in self.hconn.execute("SELECT id, message_type, payload, attempts, deliver_at, locked_until, max_attempts "
                                     "FROM queue_messages ORDER BY id"):
             p = json.loads(r["payload"])
+            if r["id"] not in self.delayed:
+                try:
+                    da = datetime.fromisoformat(r["deliver_at"])
+                    self.delayed[r["id"]] = (da - datetime.now(UTC)) > timedelta(seconds=3)
+                except Exception:
+                    self.delayed[r["id"]] = False
             out.append({"id": r["id"], "type": r["message_type"], "payload": p, "attempts": r["attempts"],
+                        "delayed": self.delayed[r["id"]],
                         "deliver_at": r["deliver_at"], "locked_until": r["locked_until"], "max_attempts": r["max_attempts"]})
         return out
 
@@ -432,6 +444,10 @@ class Env:
     def audit(self, since: int = 0) -> list[dict]:
         return [dict(r) for r in self.hconn.execute("SELECT * FROM verif_audit WHERE seq > ? ORDER BY seq", (since,))]
 
+    def audit_max(self) -> int:
+        r = self.hconn.execute("SELECT COALESCE(MAX(seq), 0) FROM verif_audit").fetchone()
+        return r[0]
+
     def processed_ids(self) -> set:
         return {r[0] for r in self.hconn.execute("SELECT message_id FROM processed_messages")}
 
@@ -466,7 +482,7 @@ class Env:
                 "activated": ctx.get("_activated_branches"), "bypass": bool(ctx.get("_jump_bypass", False)),
                 "jump_count": ctx.get("_jump_count"), "buffered": len(ctx.get("_buffered_signals", []) or []),
                 "signal": ctx.get("_signal_name"), "ctx_keys": sorted(k for k in ctx if not k.startswith("_") and k not in ("exception",)),
-                "has_exception": "exception" in ctx,
+                "has_exception": "exception" in ctx, "plan_pending": bool(ctx.get("_plan_pending", False)),
                 "user_ctx": {k: v for k, v in ctx.items() if k.startswith("k") and k[1:].isdigit()},
                 "outputs": outs, "tasks": tasks,
             })
